@@ -3,6 +3,7 @@ package main
 import (
 	"fmt"
 	"go/types"
+	"os"
 	"sort"
 	"strings"
 
@@ -31,11 +32,12 @@ type trailRec struct {
 }
 
 type inputRec struct {
-	Name string
-	Kind string // bool,int,string,bytes
-	Term *Term
-	Str  *Str
-	W    int
+	Name     string
+	Kind     string // bool,int,string,bytes
+	Term     *Term
+	Str      *Str
+	W        int
+	Unsigned bool
 }
 
 type Violation struct {
@@ -82,19 +84,22 @@ type Machine struct {
 	stubsSeen map[string]int
 	watch     map[string]bool
 
-	tickers        map[*Value]*Timer
-	builders       map[*Value]*Str
-	atomicVC       map[*Value][]int
-	raceSeen       map[string]bool
-	assertsChecked int
-	params         map[string]int
-	curFrame       *frame
-	harnessFnCache map[*ssa.Function]bool
-	pinned         map[string]any
-	known          map[uint64][]*Term
-	knownHits      int
+	tickers         map[*Value]*Timer
+	builders        map[*Value]*Str
+	atomicVC        map[*Value][]int
+	raceSeen        map[string]bool
+	assertsChecked  int
+	params          map[string]int
+	curFrame        *frame
+	harnessFnCache  map[*ssa.Function]bool
+	pinned          map[string]any
+	keep            int
+	note            string
+	kindStats       map[string]int
+	known           map[uint64][]*Term
+	knownHits       int
 	fixedOrderTypes []string
-	inputNames     map[string]bool
+	inputNames      map[string]bool
 
 	// scheduler
 	sched
@@ -144,10 +149,13 @@ func (m *Machine) insideStub(fr *frame, st *ssa.Function) bool {
 
 type pathDeadPanic struct{}
 
+var trailDebug = os.Getenv("GOSYM_TRAIL") != ""
+
 func (m *Machine) decideLazy(kind string, gen func() []int) int {
 	if m.pos < len(m.forced) {
 		v := m.forced[m.pos]
 		m.pos++
+		m.afterDecision()
 		return v
 	}
 	opts := gen()
@@ -155,11 +163,33 @@ func (m *Machine) decideLazy(kind string, gen func() []int) int {
 		m.pathDead = true
 		panic(execAbort{})
 	}
+	if m.kindStats != nil && len(opts) > 1 {
+		k := kind
+		if i := strings.Index(k, ":"); i >= 0 {
+			k = k[:i]
+		}
+		m.kindStats[k] += len(opts) - 1
+	}
+	if trailDebug {
+		fmt.Printf("DEC pos=%d kind=%s opts=%v\n", m.pos, kind, opts)
+	}
 	m.trail = append(m.trail, trailRec{opts: opts, kind: kind})
 	m.forced = append(m.forced, opts[0])
 	m.pos++
+	m.afterDecision()
 	return opts[0]
 }
+
+// afterDecision keeps the solver's scope stack aligned with the decision trail: scope i holds what was asserted
+// after decision i-1. The first m.keep scopes survive from the previous path and are not re-sent.
+func (m *Machine) afterDecision() {
+	if m.pos <= m.keep {
+		return // still inside the retained prefix
+	}
+	m.solver.PushScope()
+}
+
+func (m *Machine) solverLive() bool { return m.pos >= m.keep }
 
 func (m *Machine) assume(c *Term) {
 	if c.IsTrue() {
@@ -167,7 +197,9 @@ func (m *Machine) assume(c *Term) {
 	}
 	m.pc = append(m.pc, c)
 	m.addKnown(c)
-	m.solver.Assert(c)
+	if m.solverLive() {
+		m.solver.Assert(c)
+	}
 }
 
 // addKnown records asserted literals so that repeated branch conditions need no solver call.
@@ -276,8 +308,30 @@ func (m *Machine) symBV(name string, w int) *Term {
 		switch x := pv.(type) {
 		case int64:
 			m.assume(Eq(t, MkBV(w, uint64(x))))
+		case int:
+			m.assume(Eq(t, MkBV(w, uint64(x))))
 		case float64:
 			m.assume(Eq(t, MkBV(w, uint64(int64(x)))))
+		}
+	}
+	return t
+}
+
+// symLin: a non-negative integer-valued input of at most `bits` bits, kept in linear integer arithmetic.
+func (m *Machine) symLin(name string, bits int) *Term {
+	m.checkName(name)
+	t := MkLinVar(m.freshName(name), bits)
+	m.inputs = append(m.inputs, &inputRec{Name: name, Kind: "int", Term: t, W: 64, Unsigned: true})
+	// the static bounds must be stated to the solver explicitly (comparisons against them fold away)
+	m.assume(And(mkLinCmp(&LinExpr{Vars: t.Lin.Vars, Coef: []int64{-1}}, 0), mkLinCmp(&LinExpr{K: -t.Hi, Vars: t.Lin.Vars, Coef: []int64{1}}, 0)))
+	if pv, ok := m.pinned[name]; ok {
+		switch x := pv.(type) {
+		case int64:
+			m.assume(Eq(t, MkBV(64, uint64(x))))
+		case int:
+			m.assume(Eq(t, MkBV(64, uint64(x))))
+		case float64:
+			m.assume(Eq(t, MkBV(64, uint64(int64(x)))))
 		}
 	}
 	return t
